@@ -292,7 +292,10 @@ def gen_trees(rng, quick):
              [(None, 2, 4)], [(None, 0, 1)], [("threading", 2, 3), ("multiprocessing", 0, 1)],
              [("threading", 1, 2)], [("loky", 1, 2)], [("multiprocessing", 1, 2)], [("sequential", 3, 2)],
              [(None, 2, 3), ("threading", 1, 2)], [("threading", 3, 5), ("threading", 1, 2), (None, 2, 2)],
-             [(None, 2, 3), (None, None, 3)], [("threading", 2, 3), (None, None, 3)]]
+             [(None, 2, 3), (None, None, 3)], [("threading", 2, 3), (None, None, 3)],
+             # depth 4, explicit backends in the middle, a default call at the bottom
+             [(None, 2, 3), ("threading", 2, 2), ("threading", 2, 2), (None, 2, 2)],
+             [("threading", 2, 3), ("threading", 2, 2), ("loky", 2, 2), (None, 3, 2)]]
     trees += nested_guard_trees(rng, quick)
     trees += hint_trees(rng, quick)
     for a in names:
@@ -305,7 +308,7 @@ def gen_trees(rng, quick):
     return trees + d3
 
 
-def run_tree(ctx, idx, levels, timeout=180, payload=None):
+def run_tree(ctx, idx, levels, timeout=180, payload=None, env=None):
     logdir = os.path.join(ctx.tmp, "nest-%d" % idx)
     for attempt in (0, 1):
         if os.path.isdir(logdir):
@@ -315,7 +318,7 @@ def run_tree(ctx, idx, levels, timeout=180, payload=None):
         cmd = [common.PY, os.path.join(common.ROOT, "harness", "impl", "c15_nest.py"), logdir,
                json.dumps(payload if payload is not None else mk_tree(levels))]
         try:
-            p = subprocess.run(cmd, env=common.impl_env(), stdout=subprocess.PIPE, stderr=subprocess.PIPE, text=True,
+            p = subprocess.run(cmd, env=common.impl_env(env), stdout=subprocess.PIPE, stderr=subprocess.PIPE, text=True,
                                timeout=timeout)
         except subprocess.TimeoutExpired:
             continue
@@ -425,11 +428,15 @@ def judge_tree(levels, run, model_chain, model_procs):
                 bad.append("tasks of the nested default-backend call %s ran in pids %s, not in its worker's pid %d" % (
                     c["path"], sorted(tp), c["pid"]))
     default = all(l[0] is None and lvl(l)[3] in (None, "processes") for l in levels)
-    if default:
-        # "the first nesting level runs on threads and deeper levels run sequentially" (below a call that went parallel)
+    if True:
+        # "the first nesting level runs on threads and deeper levels run sequentially" (below calls that went parallel),
+        # for every call that leaves the backend to the defaults -- whatever its ancestors chose explicitly
         par = {c["path"] for c in calls if c.get("eff", 1) > 1}
         for c in calls:
             if "kind" not in c or "." not in c["path"]:
+                continue
+            dl = lvl(levels[c["path"].count(".")])
+            if dl[0] is not None or dl[3] not in (None, "processes"):
                 continue
             anc = [c["path"].rsplit(".", k)[0] for k in range(1, c["path"].count(".") + 1)]
             n_par = sum(1 for a in anc if a in par)
@@ -600,7 +607,10 @@ def run(ctx):
     gens = [(gen_c15.generate, "T_njobs", "effective_n_jobs / cpu_count"),
             (gen_c15.generate_nested, "T_nested", "get_nested_backend / configure / pool construction"),
             (gen_c15.generate_executor, "T_executor", "_resize / get_reusable_executor / get_memmapping_executor decisions"),
-            (gen_c17.generate_active_backend, "T_active_backend", "_get_active_backend")]
+            (gen_c17.generate_active_backend, "T_active_backend", "_get_active_backend"),
+            # Props/C15.vo is built on Proofs/Config.vo (the regenerated _get_active_backend), which also needs these two
+            (gen_c17.generate, "T_config_param", "_get_config_param"),
+            (gen_c17.generate_mp_context, "T_mp_context", "Parallel.__init__ mp context / abort_everything")]
     rejected = set()
     for gen, fname, label in gens:
         try:
@@ -796,6 +806,34 @@ Definition showc (r : result Z) (pool : Z) : list Z :=
             disagreements.append({"function": "call_outcome/worker_site", "case": {"mode": "nest", "levels": lv}, **d})
         if len(lv) > 1:
             nontrivial.add(json.dumps(lv))
+    # real runs under a restricted CPU count (LOKY_MAX_CPU_COUNT smaller than the host): negative n_jobs must follow it
+    if real_cpus >= 4:
+        for k, (limit, lv) in enumerate([(3, [("threading", -1, 5)]), (2, [(None, -1, 4), (None, -1, 3)]),
+                                         (3, [("multiprocessing", -2, 4)])]):
+            rr = run_tree(ctx, 8000 + k, lv, env={"LOKY_MAX_CPU_COUNT": str(limit)})
+            if "inconclusive" in rr:
+                nest_stats["inconclusive"] += 1
+                continue
+            chain, procs = parse(ctx.coq_eval_lines(REQ_MODEL_ONLY, DEFS_COMMON, [chain_expr(lv, limit)], name="c15_chain_lim%d" % k)[0])
+            n_model += 1
+            bad, dis, st = judge_tree(lv, rr, chain, procs)
+            nest_stats["calls"] += st["calls"]
+            top = next((c for c in rr["events"] if c["e"] == "call" and c["path"] == "r"), {})
+            want = max(limit + 1 + lv[0][1], 1)
+            if top.get("eff") != want:
+                bad.insert(0, "Parallel(n_jobs=%d) under LOKY_MAX_CPU_COUNT=%d resolved to %s workers, expected %d" % (
+                    lv[0][1], limit, top.get("eff"), want))
+            for x in bad:
+                r2 = run_tree(ctx, 8100 + k, lv, env={"LOKY_MAX_CPU_COUNT": str(limit)})
+                b2 = [] if "inconclusive" in r2 else judge_tree(lv, r2, chain, procs)[0]
+                t2 = next((c for c in r2.get("events", []) if c["e"] == "call" and c["path"] == "r"), {})
+                if b2 or t2.get("eff") != want:
+                    problems.append((x, {"mode": "nest", "levels": lv, "env": {"LOKY_MAX_CPU_COUNT": str(limit)}}, None))
+                break
+            for d in dis:
+                disagreements.append({"function": "call_outcome under LOKY_MAX_CPU_COUNT", "case": {"mode": "nest", "levels": lv,
+                                      "env": {"LOKY_MAX_CPU_COUNT": str(limit)}}, **d})
+
     # a sampled real-backend result alone never decides: confirm by one re-run
     confirmed = []
     for what, lv in nest_bad[:4]:
@@ -932,11 +970,11 @@ def replay(ctx, path):
         return 1 if bad else 0
     if c["mode"] == "nest":
         lv = [tuple(l) for l in c["levels"]]
-        rr = run_tree(ctx, 1, lv)
+        rr = run_tree(ctx, 1, lv, env=c.get("env"))
         if "inconclusive" in rr:
             print("replay inconclusive:", rr["inconclusive"])
             return 1
-        expr = chain_expr(lv, 16)
+        expr = chain_expr(lv, int(c["env"]["LOKY_MAX_CPU_COUNT"]) if c.get("env") else 16)
         chain, procs = parse(ctx.coq_eval_lines(REQ_MODEL_ONLY, DEFS_COMMON, [expr], name="c15_replay")[0])
         bad, _, st = judge_tree(lv, rr, chain, procs)
         print("replay nested run:", lv, "=>", bad or "property holds", st)
